@@ -36,13 +36,14 @@ type Replayer struct {
 	mu      sync.Mutex
 	bins    map[string]string
 	errs    map[string]error
+	Retries int
 	Builds  int
 	Runs    int
 	BuildS  float64
 }
 
 func NewReplayer(l *Loaded, scratch string) *Replayer {
-	return &Replayer{L: l, Scratch: scratch, Timeout: 20 * time.Second, bins: map[string]string{}, errs: map[string]error{}}
+	return &Replayer{L: l, Scratch: scratch, Timeout: 20 * time.Second, Retries: 7, bins: map[string]string{}, errs: map[string]error{}}
 }
 
 const replayTestTmpl = `package %s
@@ -159,7 +160,24 @@ type ReplayOutcome struct {
 }
 
 // Run executes the case natively and reports whether the same failure shows.
+// A counterexample that does not show at once is retried: the native build
+// iterates Go maps in random order, so an order-dependent failure needs
+// several attempts (the engine explores one fixed order policy).
 func (r *Replayer) Run(c *Case, caseFile string) ReplayOutcome {
+	var o ReplayOutcome
+	for i := 0; i < 1+r.Retries; i++ {
+		o = r.runOnce(c, caseFile)
+		if o.Reproduced {
+			if i > 0 {
+				o.Detail += fmt.Sprintf(" (on native attempt %d: order-dependent)", i+1)
+			}
+			return o
+		}
+	}
+	return o
+}
+
+func (r *Replayer) runOnce(c *Case, caseFile string) ReplayOutcome {
 	bin, err := r.binary(c.Pkg)
 	if err != nil {
 		return ReplayOutcome{Detail: err.Error()}
@@ -200,7 +218,7 @@ func (r *Replayer) Run(c *Case, caseFile string) ReplayOutcome {
 		}
 	case "panic":
 		for _, l := range strings.Split(out, "\n") {
-			if strings.HasPrefix(l, "VERIF-PANIC: ") {
+			if strings.HasPrefix(l, "VERIF-PANIC: ") && !strings.Contains(l, "verif: cycle budget exceeded") {
 				o.Reproduced = true
 				o.Detail = "native panic: " + strings.TrimPrefix(l, "VERIF-PANIC: ")
 			}
@@ -213,7 +231,10 @@ func (r *Replayer) Run(c *Case, caseFile string) ReplayOutcome {
 			o.Detail = "no panic natively"
 		}
 	case "hang":
-		if hung {
+		if strings.Contains(out, "VERIF-PANIC: verif: cycle budget exceeded") || strings.Contains(out, "panic: verif: cycle budget exceeded") {
+			o.Reproduced = true
+			o.Detail = "native run exceeds the cycle budget (instrumented Run loop aborted)"
+		} else if hung {
 			o.Reproduced = true
 			o.Detail = "native run does not return within " + r.Timeout.String()
 		} else {
